@@ -2,6 +2,7 @@
 //! One module per property (`cNN.rs`, `pub fn run(args: &hcore::Args, out: &mut hcore::Out)`).
 
 mod c42;
+mod c43;
 mod c44;
 
 /// A *frozen* monotonic clock: once `clock::freeze(ns)` was called, `Instant::now()` returns exactly
@@ -48,6 +49,7 @@ fn main() {
     let mut out = hcore::Out::new();
     match args.prop.as_str() {
         "C42" => c42::run(&args, &mut out),
+        "C43" => c43::run(&args, &mut out),
         "C44" => c44::run(&args, &mut out),
         p => {
             eprintln!("h_kad_c: unknown property {p}");
